@@ -7,6 +7,9 @@ d  monodromy / stability services are wired to the variational system of the sam
 
 c-memo  the cached compiled wrapper of a directed system is keyed by base rhs, direction and flip indices (hv.memo)
 d-invalidation  cached monodromy/stability entries and recorded slots are dropped when the period changes (C20.e on the orbit service)
+
+c (round 3)  the wrapper is built by its own constructor (attribute names are the class's business); every literal name a direction-aware
+   integrator reads with getattr(system, name, 1) is an attribute that constructor stores;  d-mu: C01's system wiring re-filed
 """
 from __future__ import annotations
 
